@@ -3,6 +3,8 @@
 # For every candidate <out>/<ID>/m*/ : confirm on a scratch worktree of /repo (HEAD) that the patch applies, the pinned
 # test-suite summary is unchanged, the demonstration passes without and fails with the patch; then run the property's
 # check (quick) against /repo with the patch applied and record everything in /verif/seeded/<ID>/<name>/meta.json.
+# HARVEST_CHECKS=<dir>: run the checks from a frozen copy of /verif (made when the round arrived), so that the first result of
+# every change is "the check as it stood" even while the checks are being extended in /verif.
 OUT="$1"
 PREFIX="${2:-}"      # e.g. r2- for a second round
 BASE="19 failed, 452 passed, 13 xfailed, 1 xpassed"
@@ -27,7 +29,7 @@ for d in "$OUT"/C*/m*/; do
   # run the check against /repo with the patch applied
   git -C /repo diff --quiet || { echo "/repo dirty"; exit 2; }
   git -C /repo apply "$PATCH"
-  (cd /verif && ./check $ID quick > /tmp/harvest.$$.log 2>&1); RC=$?
+  (cd "${HARVEST_CHECKS:-/verif}" && ./check $ID quick > /tmp/harvest.$$.log 2>&1); RC=$?
   git -C /repo checkout -- .
   MECH=$(grep -E "^  mechanism" /tmp/harvest.$$.log | head -4 | sed 's/^  mechanism: //' | tr '\n' ';')
   mkdir -p "$DEST"; cp "$PATCH" "$DEST/patch.diff"; cp "$d/demo.py" "$DEST/demo.py"
